@@ -138,12 +138,12 @@ namespace c08
         using A  = fm::memory_pool<P, vblk>;
         auto s   = new Sib<A>();
         s->kind  = K_POOL;
-        s->name  = fmt("%s(node %zu, %zu nodes/block)", nm, node_size, nodes);
+        auto bs  = r16(A::min_block_size(node_size, nodes));
+        s->name  = fmt("%s(node %zu, block %zu bytes)", nm, node_size, bs);
         s->ns    = n;
         s->as    = a;
         s->en[1] = true; // try_allocate_array of a pool without array support must return null
         s->en[3] = arrays;
-        auto bs  = r16(A::min_block_size(node_size, nodes));
         s->make  = [=](void* mem, int id) { return ::new (mem) A(node_size, bs, id); };
         return s;
     }
@@ -337,7 +337,7 @@ namespace c08
                         return "foreign-starts-at-own-block-end";
                     if (end == bs || slot == bs)
                         r = "foreign-ends-at-own-block-start";
-                    else if (off > be && off < be + 64 && std::string(r) == "foreign-elsewhere")
+                    else if (off > be && off < be + 64 && !std::strcmp(r, "foreign-elsewhere"))
                         r = "foreign-shortly-behind-own-block";
                 }
             return r;
@@ -410,7 +410,7 @@ namespace c08
                     ++raw_allocs;
                     if (p)
                         add_live(p, rs, OWNER_RAW);
-                    res = p ? fmt("offset %ld", u.off(p)) : "null";
+                    if (verbose) res = p ? fmt("offset %ld", u.off(p)) : "null";
                 }
                 else if (op < 12)
                 {
@@ -442,14 +442,14 @@ namespace c08
                             }
                         if (!bad)
                             add_live(p, sh, s);
-                        res = fmt("offset %ld", u.off(p));
+                        if (verbose) res = fmt("offset %ld", u.off(p));
                     }
                     else
                     {
                         bump(k < 2 ? "p1_try_alloc_null" : "p1_alloc_failed");
-                        res = threw ? "exception" : "null";
+                        if (verbose) res = threw ? "exception" : "null";
                     }
-                    class_keys().insert(fmt("%s|alloc|%d|%d|%d", sc.name.c_str(), s, k, p ? 1 : 0));
+                    if (counting()) class_keys().insert(fmt("%s|alloc|%d|%d|%d", sc.name.c_str(), s, k, p ? 1 : 0));
                 }
                 else
                 {
@@ -474,13 +474,13 @@ namespace c08
                     bump(own ? "p1_try_dealloc_own" : "p1_try_dealloc_foreign");
                     if (own && older)
                         bump("p1_own_pointer_in_older_block");
-                    if (std::string(rel) == "foreign-starts-at-own-block-end")
+                    if (!std::strcmp(rel, "foreign-starts-at-own-block-end"))
                         bump("p1_foreign_at_block_end");
-                    if (std::string(rel) == "foreign-ends-at-own-block-start")
+                    if (!std::strcmp(rel, "foreign-ends-at-own-block-start"))
                         bump("p1_foreign_ends_at_block_start");
-                    class_keys().insert(fmt("%s|dealloc|A%d|%s|%d|%s%s|%d", sc.name.c_str(), A, owner_name(l.owner), int(l.s.array), rel,
+                    if (counting()) class_keys().insert(fmt("%s|dealloc|A%d|%s|%d|%s%s|%d", sc.name.c_str(), A, owner_name(l.owner), int(l.s.array), rel,
                                             own && older ? "-older-block" : "", r ? 1 : 0));
-                    res = r ? "true" : "false";
+                    if (verbose) res = r ? "true" : "false";
                     if (r != own)
                     {
                         if (own)
@@ -523,6 +523,7 @@ namespace c08
                 if (verbose)
                     std::printf("  step %zu: %-60s -> %s\n", step, op_name(op).c_str(), res.c_str());
                 if (verbose || !vios().empty())
+                    if (verbose)
                     out.trace += op_name(op) + " -> " + res + "; ";
             }
             cur_step = 1000;
